@@ -64,6 +64,8 @@ enum { BLK_NONE = 0, BLK_MUTEX, BLK_COND, BLK_JOIN, BLK_SLEEP };
 struct vt
 {
     int used, finished, joined, blk, jt, consec;
+    unsigned last_run; // step at which the thread was last chosen
+    int spun;          // was switched out as a spinner since the clock last moved
     unsigned nsleeps;
     void *o1, *o2;
     uint64_t wake;
@@ -190,7 +192,20 @@ static void schedule(void)
         int others = 0;
         for (int i = 0; i < NT; ++i)
             if (i != me && enabled(&T[i])) ++others;
-        if (me_en && others && T[me].consec >= g_starve) { starving = 1; T[me].consec = 0; } // a spinner is switched out for free (legal schedule, keeps spin loops finite)
+        if (me_en && others && T[me].consec >= g_starve) { // a spinner is switched out for free (legal schedule, keeps spin loops finite)
+            starving = 1; T[me].consec = 0; T[me].spun = 1;
+            // every runnable thread has used up a whole burst since the clock last moved: they all spin (on the clock, on a flag, or
+            // polling an empty queue without sleeping) while somebody sleeps - time passes to the next wake-up
+            int all = 1;
+            for (int i = 0; i < NT; ++i) if (enabled(&T[i]) && !T[i].spun) all = 0;
+            if (all) {
+                uint64_t mw = ~0ull;
+                for (int i = 0; i < NT; ++i)
+                    if (T[i].used && !T[i].finished && T[i].blk == BLK_SLEEP && NOW < T[i].wake && T[i].wake < mw) mw = T[i].wake;
+                for (int i = 0; i < NT; ++i) T[i].spun = 0;
+                if (mw != ~0ull) { NOW = mw; continue; }
+            }
+        }
         else if (me_en && !others && T[me].consec >= g_spin) {
             {
                 // only sleepers besides the spinner: let time pass to the next wake-up (it spins on the clock or on a flag)
@@ -198,6 +213,7 @@ static void schedule(void)
                 for (int i = 0; i < NT; ++i)
                     if (T[i].used && !T[i].finished && T[i].blk == BLK_SLEEP && NOW < T[i].wake && T[i].wake < mw) mw = T[i].wake;
                 T[me].consec = 0;
+                for (int i = 0; i < NT; ++i) T[i].spun = 0;
                 if (mw != ~0ull) { NOW = mw; continue; }
                 NOW += 1000000ull; // nobody else will ever move the clock: a busy-wait on the clock sees time pass (1 ms per burst)
             }
@@ -205,7 +221,13 @@ static void schedule(void)
         if (me_en && !starving) cand[n++] = me;
         for (int i = 0; i < NT; ++i)
             if (i != me && enabled(&T[i])) cand[n++] = i;
-        if (me_en && starving) cand[n++] = me;
+        if (me_en && starving) {
+            // fairness of the default schedule: the spinner yields to the enabled thread that has waited longest (two spinners
+            // yielding to each other by id would starve a third, runnable thread for ever - no OS scheduler does that)
+            for (int a = 1; a < n; ++a)
+                for (int b = a; b > 0 && T[cand[b]].last_run < T[cand[b - 1]].last_run; --b) { int t = cand[b]; cand[b] = cand[b - 1]; cand[b - 1] = t; }
+            cand[n++] = me;
+        }
         nE = n;
         uint64_t minwake = ~0ull;
         int nsleep = 0, first_sleeper = -1;
@@ -218,7 +240,7 @@ static void schedule(void)
         // later sleepers are reached by skipping again
         if (g_timeskip && first_sleeper >= 0 && nE > 0) cand[n++] = first_sleeper;
         if (nE == 0) {
-            if (nsleep) { NOW = minwake; continue; } // everybody waits: time passes
+            if (nsleep) { NOW = minwake; for (int i = 0; i < NT; ++i) T[i].spun = 0; continue; } // everybody waits: time passes
             int unfinished = 0;
             for (int i = 0; i < NT; ++i) unfinished += T[i].used && !T[i].finished;
             char d[1200];
@@ -254,6 +276,7 @@ static void schedule(void)
             notef("step %u t=%.3fms: T%d %s -> %s%s%s   [choice %d of %d%s]", STEPS, (NOW - 1000000000ull) / 1e6, c, T[c].name, T[c].opname ? T[c].opname : "",
                   T[c].o1 ? " " : "", T[c].o1 ? addr_name(T[c].o1, b1, sizeof b1) : "", chosen, n, n > 1 ? "" : ", forced");
         }
+        T[c].last_run = STEPS;
         if (c == me) { T[me].consec++; return; }
         T[me].consec = 0;
         CUR = c;
@@ -562,6 +585,7 @@ void vs_sleep_ms(double ms) { vsleep_ns((uint64_t)(ms * 1e6)); }
 uint64_t vs_now_ns(void) { return NOW; }
 int vs_self(void) { return my_tid; }
 int vs_thread_count(void) { return NT; }
+int vs_live_threads(void) { int n = 0; for (int i = 0; i < NT; ++i) n += T[i].used && !T[i].finished && i != my_tid; return n; }
 unsigned vs_sleeps_of(int tid) { return (tid >= 0 && tid < NT) ? T[tid].nsleeps : 0; }
 int vs_active(void) { return ACTIVE; }
 unsigned vs_steps(void) { return STEPS; }
@@ -660,11 +684,12 @@ static void run_one(struct result* res, const uint8_t* prefix, uint32_t len)
 // ------------------------------------------------------------------------------------------------
 // explorer: iterative preemption bounding, DFS over choice prefixes, W worker processes
 // ------------------------------------------------------------------------------------------------
-struct item { uint16_t len, cost; uint8_t ch[MAXPOINTS > 1020 ? 1020 : MAXPOINTS]; };
+#define MAXPREFIX 3000 // choice points of one execution at which the search branches (== g_max_points: beyond it the execution is a horizon)
+struct item { uint16_t len, cost; uint8_t ch[MAXPREFIX]; };
 #define POOLCAP 32768
 #define MAXVIOL 48
 #define MAXOUT 8192
-struct viol { int status; uint16_t cost; uint32_t len; char clause[96]; char msg[1500]; uint8_t ch[1020]; uint32_t count; int confirmed; };
+struct viol { int status; uint16_t cost; uint32_t len; char clause[96]; char msg[1500]; uint8_t ch[MAXPREFIX]; uint32_t count; int confirmed; };
 struct shared
 {
     volatile int lock;
@@ -719,7 +744,7 @@ static void record_violation(struct result* r, const struct item* it, int confir
         v->status = r->status; v->count = 1; v->confirmed = confirmed;
         snprintf(v->clause, sizeof v->clause, "%s", r->clause);
         snprintf(v->msg, sizeof v->msg, "%s", r->msg);
-        uint32_t n = r->npoints < 1020 ? r->npoints : 1020;
+        uint32_t n = r->npoints < MAXPREFIX ? r->npoints : MAXPREFIX;
         // store the full choice list, trimmed of trailing defaults
         while (n > 0 && r->pts[n - 1].chosen == 0) --n;
         v->len = n;
@@ -769,8 +794,8 @@ static void worker(int wid, struct result* res, struct result* res2)
             S->stop = 1;
         } else if (res->status != ST_OK) {
             // replay before report: the same full choice list must fail the same way
-            uint8_t full[1020];
-            uint32_t n = res->npoints < 1020 ? res->npoints : 1020;
+            uint8_t full[MAXPREFIX];
+            uint32_t n = res->npoints < MAXPREFIX ? res->npoints : MAXPREFIX;
             for (uint32_t i = 0; i < n; ++i) full[i] = res->pts[i].chosen;
             g_max_steps *= (res->status == ST_HORIZON ? 1 : 1);
             run_one(res2, full, n);
@@ -786,7 +811,7 @@ static void worker(int wid, struct result* res, struct result* res2)
         }
         // expand: deviations after the prefix
         uint32_t np = res->npoints;
-        if (np > 1020) { np = 1020; __atomic_fetch_add(&S->truncated, 1, __ATOMIC_RELAXED); }
+        if (np > MAXPREFIX) { np = MAXPREFIX; __atomic_fetch_add(&S->truncated, 1, __ATOMIC_RELAXED); }
         int made = 0;
         if (res->status != ST_DIVERGED) {
             for (uint32_t i = np; i-- > cur.len;) { // deepest first so that the stack pops shallow deviations last
@@ -838,7 +863,7 @@ static void json_str(FILE* f, const char* s)
 static int parse_choices(const char* s, uint8_t* out)
 {
     int n = 0;
-    while (*s && n < 1020) {
+    while (*s && n < MAXPREFIX) {
         while (*s == ',' || *s == ' ') ++s;
         if (!*s) break;
         out[n++] = (uint8_t)strtol(s, (char**)&s, 10);
@@ -894,7 +919,7 @@ int vs_main(int argc, char** argv)
     if (slots == MAP_FAILED || S == MAP_FAILED) { perror("mmap"); return 2; }
 
     if (replay) {
-        uint8_t ch[1020];
+        uint8_t ch[MAXPREFIX];
         int n = parse_choices(replay, ch);
         g_trace = 1;
         fflush(stdout);
